@@ -62,6 +62,7 @@ func genRealtime(g *gen, prop string, budget int, emit func(string)) bool {
 		fixed := []string{
 			"ort tun waiting 2 %d", "ort rtr waiting 2 %d", "ort grp burst 16 %d", "ort grp waiting 16 %d",
 			"ort tun burst 4 %d", "ort rtr burst 16 %d", "ort tun burst 64 %d", "ort rtr burst 2 %d", "ort grp burst 64 %d",
+			"ort rtr mixed 16 %d", "ort tun mixed 16 %d", "ort rtr mixed 64 %d", "ort grp mixed 16 %d", "ort tun mixed 8 %d",
 		}
 		n := 0
 		for _, s := range fixed {
@@ -72,7 +73,7 @@ func genRealtime(g *gen, prop string, budget int, emit func(string)) bool {
 		}
 		for ; n < budget; n++ {
 			client := []string{"tun", "rtr", "grp"}[g.r.Intn(3)]
-			mode := []string{"waiting", "burst"}[g.r.Intn(2)]
+			mode := []string{"waiting", "burst", "mixed"}[g.r.Intn(3)]
 			k := g.pick(2, 3, 4, 8, 16, 64)
 			if mode == "waiting" && client != "grp" {
 				// with a waiting reader only the second telegram can be parked: longer bursts race
